@@ -53,7 +53,7 @@ macro_rules! logint_one {
             coeff_vec(r, <$t as Nums>::LEN, kx.ln())
         };
         let p = Log(<$t>::from_nums(&c));
-        let k = Knot { x: kx, y: ky };
+        let k = if r.below(2) == 0 { m.count("knot_built_with_constructor"); Knot::new(kx, ky) } else { Knot { x: kx, y: ky } };
         m.eval();
         m.count(&format!("degree:{}", $deg));
         m.count(&format!("coeffs:{}", cc));
@@ -84,6 +84,108 @@ macro_rules! logint_one {
     }};
 }
 
+/// Concurrent lane (ppv::conc): integrate + evaluate from four threads at once; every distinct result vector a job
+/// ever produced becomes an ordinary event for the oracle.
+struct CJob09 {
+    deg: u64,
+    c: Vec<f64>,
+    kx: f64,
+    ky: f64,
+    a: f64,
+    b: f64,
+    cc: &'static str,
+}
+
+macro_rules! logint_job {
+    ($r:expr, $t:ident, $deg:expr, $jobs:expr, $meta:expr) => {{
+        let r: &mut Rng = $r;
+        let (kx, _) = pos_arg(r);
+        let ky = match r.below(4) { 0 => 0.0, 1 => 2.0, 2 => r.logu(5.0), _ => r.mixed(3.0) };
+        let (a, _) = pos_arg(r);
+        let (b, _) = pos_arg(r);
+        let (c, cc) = coeff_vec(r, <$t as Nums>::LEN, kx.ln());
+        let p = Log(<$t>::from_nums(&c));
+        $jobs.push(Box::new(move || {
+            let ind = p.indefinite();
+            let f = p.integral(Knot { x: kx, y: ky });
+            let mut v = ind.nums();
+            v.extend(f.nums());
+            v.extend([f.evaluate(kx), f.evaluate(a), f.evaluate(b), ind.evaluate(a), ind.evaluate(b)]);
+            v
+        }) as ppv::conc::Job);
+        $meta.push(CJob09 { deg: $deg, c, kx, ky, a, b, cc });
+    }};
+}
+
+fn concurrent09(a: &Args, m: &mut Mon, sink: &mut Sink) {
+    let mut r = Rng::lane(a.seed, "C09", a.shard, 7);
+    let n = a.n(2_000, 100_000);
+    let mut jobs: Vec<ppv::conc::Job> = Vec::new();
+    let mut meta: Vec<CJob09> = Vec::new();
+    while (jobs.len() as u64) < n {
+        logint_job!(&mut r, Poly0, 0, jobs, meta);
+        logint_job!(&mut r, Poly1, 1, jobs, meta);
+        logint_job!(&mut r, Poly2, 2, jobs, meta);
+        logint_job!(&mut r, Poly3, 3, jobs, meta);
+        logint_job!(&mut r, Poly4, 4, jobs, meta);
+        logint_job!(&mut r, Poly4, 4, jobs, meta);
+        logint_job!(&mut r, Poly5, 5, jobs, meta);
+        logint_job!(&mut r, Poly6, 6, jobs, meta);
+        logint_job!(&mut r, Poly7, 7, jobs, meta);
+        logint_job!(&mut r, Poly8, 8, jobs, meta);
+    }
+    match ppv::conc::run(&jobs, 4, if a.thorough() { 300 } else { 60 }, 4) {
+        Err(pn) => m.panic("log integral panic (concurrent lane)", &pn, || json!({"lane": "concurrent"})),
+        Ok((res, st)) => {
+            m.add("concurrent_calls", st.calls);
+            m.add("concurrent_jobs_with_more_than_one_result", st.jobs_with_more_than_one_result);
+            for (e, vals) in meta.iter().zip(res) {
+                for (k, bits) in vals.iter().enumerate() {
+                    let v: Vec<f64> = bits.iter().map(|b| f64::from_bits(*b)).collect();
+                    let l = (v.len() - 5) / 2;
+                    m.eval();
+                    m.count("evaluated_concurrently");
+                    let hh = hash_bits(97, e.c.iter().map(|x| x.to_bits()).chain([e.kx.to_bits(), e.ky.to_bits(), e.a.to_bits(), e.b.to_bits(), e.deg, k as u64]));
+                    sink.emit(json!({"t": "logint", "deg": e.deg, "c": hs(&e.c), "kx": h(e.kx), "ky": h(e.ky), "a": h(e.a), "b": h(e.b),
+                        "ind": hs(&v[..l]), "F": hs(&v[l..2 * l]), "Fk": h(v[2 * l]), "Fa": h(v[2 * l + 1]), "Fb": h(v[2 * l + 2]), "Ia": h(v[2 * l + 3]), "Ib": h(v[2 * l + 4]), "h": hh, "cc": e.cc}));
+                }
+            }
+        }
+    }
+}
+
+fn concurrent10(a: &Args, m: &mut Mon, sink: &mut Sink, lo_sw: f64, hi_sw: f64) {
+    let mut r = Rng::lane(a.seed, "C10", a.shard, 7);
+    let n = a.n(8_000, 800_000);
+    let mut jobs: Vec<ppv::conc::Job> = Vec::new();
+    let mut meta: Vec<([f64; 6], f64, &'static str, &'static str)> = Vec::new();
+    while (jobs.len() as u64) < n {
+        let (form, fc) = quartic_form(&mut r);
+        let (v, vc) = quartic_arg(&mut r, lo_sw, hi_sw);
+        if !(v > 0.0) || !v.is_finite() || vc == "v_top_binades" {
+            continue;
+        }
+        let q = IntOfLogPoly4::from_nums(&form);
+        jobs.push(Box::new(move || vec![q.evaluate(v)]));
+        meta.push((form, v, fc, vc));
+    }
+    match ppv::conc::run(&jobs, 4, if a.thorough() { 300 } else { 60 }, 4) {
+        Err(pn) => m.panic("IntOfLogPoly4::evaluate panic (concurrent lane)", &pn, || json!({"lane": "concurrent"})),
+        Ok((res, st)) => {
+            m.add("concurrent_calls", st.calls);
+            m.add("concurrent_jobs_with_more_than_one_result", st.jobs_with_more_than_one_result);
+            for ((form, v, fc, vc), vals) in meta.iter().zip(res) {
+                for (k, bits) in vals.iter().enumerate() {
+                    m.eval();
+                    m.count("evaluated_concurrently");
+                    let hh = hash_bits(98, form.iter().map(|e| e.to_bits()).chain([v.to_bits(), k as u64]));
+                    sink.emit(json!({"t": "q4", "f": hs(form), "v": h(*v), "r": h(f64::from_bits(bits[0])), "branch": "concurrent", "h": hh, "fc": fc, "vc": vc}));
+                }
+            }
+        }
+    }
+}
+
 fn canaries09(m: &mut Mon, sink: &mut Sink) {
     // p(L) = 1 + 2L (degree 1): G(t) = t(2L - 1); knot (2, 5)
     let g = |t: f64| t * (2.0 * t.ln() - 1.0);
@@ -102,7 +204,7 @@ fn canaries09(m: &mut Mon, sink: &mut Sink) {
     m.canaries_fed += 4;
 }
 
-pub const FLOORS09: &[&str] = &["evaluated_on_fresh_thread", "degree:0", "degree:4", "degree:8", "knot_x_not_one", "a_b_straddle_one", "a:ulps_of_1", "a:e4", "b:e-4", "a:in_0_1", "a:subnormal", "coeffs:common_scale", "coeffs:tiny_scale", "area_checked", "knot_checked", "coefficients_checked"];
+pub const FLOORS09: &[&str] = &["evaluated_concurrently", "knot_built_with_constructor", "evaluated_on_fresh_thread", "degree:0", "degree:4", "degree:8", "knot_x_not_one", "a_b_straddle_one", "a:ulps_of_1", "a:e4", "b:e-4", "a:in_0_1", "a:subnormal", "coeffs:common_scale", "coeffs:tiny_scale", "area_checked", "knot_checked", "coefficients_checked"];
 
 pub fn drive09(a: &Args, m: &mut Mon, sink: &mut Sink) {
     m.floors(FLOORS09);
@@ -120,6 +222,7 @@ pub fn drive09(a: &Args, m: &mut Mon, sink: &mut Sink) {
         logint_one!(m, sink, &mut r, Poly7, 7);
         logint_one!(m, sink, &mut r, Poly8, 8);
     }
+    concurrent09(a, m, sink);
 }
 
 // ------------------------------------------------------------------------------------------ C10
@@ -237,6 +340,11 @@ fn branch_counts() -> (u64, u64) {
     (0, 0)
 }
 
+/// evaluation through the trait from generic code (what a `Segment` / `Piecewise` holding the form does)
+fn eval_generic<T: Evaluate>(t: &T, v: f64) -> f64 {
+    t.evaluate(v)
+}
+
 fn canaries10(m: &mut Mon, sink: &mut Sink) {
     let form = [0.5, 1.0, -2.0, 0.25, 3.0, 7.0];
     let q = IntOfLogPoly4::from_nums(&form);
@@ -250,7 +358,7 @@ fn canaries10(m: &mut Mon, sink: &mut Sink) {
 
 pub const FLOORS10: &[&str] = &[
     "v:v_ulps_of_1", "v:v_adjacent_floats_of_1", "v:v_top_binades", "v:v_one", "v:v_ulps_of_lower_switch", "v:v_ulps_of_upper_switch", "v:x_sweep_-40_40", "v:v_tiny", "v:v_huge", "v:x_near_zero",
-    "form:one_hot", "form:benchmark_magnitudes", "form:from_integral", "form:common_scale", "v:v_repeated", "evaluated_on_fresh_thread", "branch_series", "branch_closed_form", "checked", "v_equals_one_exact",
+    "form:one_hot", "form:benchmark_magnitudes", "form:from_integral", "form:common_scale", "v:v_repeated", "evaluated_on_fresh_thread", "evaluated_concurrently", "called_through_trait_from_generic_code", "called_through_a_segment", "branch_series", "branch_closed_form", "checked", "v_equals_one_exact",
 ];
 
 pub fn drive10(a: &Args, m: &mut Mon, sink: &mut Sink) {
@@ -331,7 +439,11 @@ pub fn drive10(a: &Args, m: &mut Mon, sink: &mut Sink) {
             m.count("evaluated_on_fresh_thread");
             guard(move || std::thread::spawn(move || q.evaluate(v)).join().map_err(|_| ()).expect("library panic on a fresh thread"))
         } else {
-            guard(|| q.evaluate(v))
+            match r.below(3) {
+                0 => guard(|| q.evaluate(v)),
+                1 => { m.count("called_through_trait_from_generic_code"); guard(|| eval_generic(&q, v)) }
+                _ => { m.count("called_through_a_segment"); let sg = Segment { end: v, poly: q }; guard(|| sg.evaluate(v)) }
+            }
         };
         let (s1, c1) = branch_counts();
         let branch = if fresh { "fresh-thread" } else if s1 > s0 { m.count("branch_series"); "series" } else if c1 > c0 { m.count("branch_closed_form"); "closed" } else { m.count("branch_unknown"); "?" };
@@ -340,5 +452,5 @@ pub fn drive10(a: &Args, m: &mut Mon, sink: &mut Sink) {
             Err(pn) => m.panic("IntOfLogPoly4::evaluate panic", &pn, || json!({"f": hxs(&form), "v": hx(v)})),
             Ok(rv) => sink.emit(json!({"t": "q4", "f": hs(&form), "v": h(v), "r": h(rv), "branch": branch, "h": hh, "fc": fc, "vc": vc})),
         }
-    }
+    }    concurrent10(a, m, sink, lo_sw, hi_sw);
 }
